@@ -241,3 +241,41 @@ Example monitor_accepts_label_kept :
                 5; 1; 0; 1; 1;  0; 1; 1; 0; 1; 1; 0; 1;  0;  1; 1;  0; 1; 0; 1;
                 8; 0; 1; 0;  1; 1; 1] = [].
 Proof. vm_compute. reflexivity. Qed.
+
+(* ---- liveness and exact accounting ------------------------------------------------- *)
+(* a common protocol, nothing known, no limit, direct connection, and the open
+   fails all the same (m11: res 5 = no stream): rejected *)
+Example monitor_rejects_unexcused_failure :
+  monitor_case [7; 1; 1; 2; -1; -1; -1; -1;  1; 0; 1; 0;
+                5; 1; 1; 1; 0;  5; -1; -1; -1; -1; 0; -1; -1;  0;  0;  0; 0; 0; 0] <> [].
+Proof. vm_compute. discriminate. Qed.
+
+(* the same failure is accepted when the only connection is a limited one and the
+   caller did not opt in (flags bit1, mode 0) *)
+Example monitor_accepts_limited_not_allowed :
+  monitor_case [7; 2; 3; 2; -1; -1; -1; -1;  1; 0; 1; 0;
+                5; 1; 0; 1; 0;  5; -1; -1; -1; -1; 0; -1; -1;  0;  0;  0; 0; 0; 0] = [].
+Proof. vm_compute. reflexivity. Qed.
+
+(* a refused stream that stays charged in the listener's protocol scope (m12: the
+   listener's limit for protocol 0 is 0, the open is refused, inL_0 = 1 afterwards) *)
+Example monitor_rejects_ghost_charge :
+  monitor_case [7; 1; 1; 2; -1; -1; 0; -1;  1; 0; 1; 0;
+                5; 1; 0; 1; 0;  0; 0; 0; -1; -1; 0; -1; -1;  0;  1; 0;  0; 0; 1; 0] <> [].
+Proof. vm_compute. discriminate. Qed.
+
+Example monitor_accepts_refusal_without_charge :
+  monitor_case [7; 1; 1; 2; -1; -1; 0; -1;  1; 0; 1; 0;
+                5; 1; 0; 1; 0;  0; 0; 0; -1; -1; 0; -1; -1;  0;  1; 0;  0; 0; 0; 0] = [].
+Proof. vm_compute. reflexivity. Qed.
+
+(* a BlankHost dialer never takes the optimistic path: with stale knowledge of 0 it
+   negotiates and gets 1 (m9's situation: fallback; both ends report 1) *)
+Example blank_dialer_negotiates :
+  let c := mkCfg (fun _ => -1) (fun _ => -1) false true true in
+  let tr := trace_i 4 c init_st [OAdd 1; OKnow [0]; OBatch [mkReq [0; 1] [] false false]] in
+  match nth 2 tr (OAdd 0, ObMux []) with
+  | (_, ObBatch [r] _ _ _) => obtained r = true /\ o_dp r = 1 /\ o_lp r = 1
+  | _ => False
+  end.
+Proof. vm_compute. repeat split. Qed.
